@@ -1172,6 +1172,27 @@ fn observed_json(reference: &Reference, out: &ExecOutcome) -> J {
         )
 }
 
+const HISTORY_CALLS: usize = 200;
+
+/// The life of a long-running caller thread before the calls that are compared: `n` analyses and
+/// reconstructions of six small generated streams (part of the replay file through its seed).
+fn history_calls(seed: u64, n: usize) {
+    let mut hrng = Rng::new(seed);
+    let small: Vec<Vec<u8>> = (0..6)
+        .map(|_| {
+            let (_c, _p, raw) = workload::gen_stream(&mut hrng, 60, 700);
+            raw
+        })
+        .collect();
+    for k in 0..n {
+        let s = &small[k % small.len()];
+        let _ = catch_unwind(AssertUnwindSafe(|| {
+            preflate_rs::decompress_deflate_stream(s, k % 2 == 0, 0).map(|r| preflate_rs::recompress_deflate_stream(&r.plain_text, &r.prediction_corrections))
+        }));
+    }
+    let _ = util::take_last_panic();
+}
+
 fn classify(out: &ExecOutcome) -> Option<(String, CallKind)> {
     let (_, _, call, got, runaway) = out.mismatches.first()?;
     let clause = if *runaway {
@@ -1453,23 +1474,9 @@ impl Engine for SchedEngine {
 
         // --- a long-lived thread: a few hundred further calls on varied small inputs (anything that
         // is recycled, counted or stamped per call gets used some 600 times), then the repeat
-        {
-            let mut hrng = Rng::new(derive(ctx.master_seed ^ 0xb0b0, ctx.job));
-            let small: Vec<Vec<u8>> = (0..6)
-                .map(|_| {
-                    let (_c, _p, raw) = workload::gen_stream(&mut hrng, 60, 700);
-                    raw
-                })
-                .collect();
-            for k in 0..200 {
-                let s = &small[k % small.len()];
-                let _ = catch_unwind(AssertUnwindSafe(|| {
-                    preflate_rs::decompress_deflate_stream(s, k % 2 == 0, 0).map(|r| preflate_rs::recompress_deflate_stream(&r.plain_text, &r.prediction_corrections))
-                }));
-            }
-            let _ = util::take_last_panic();
-            res.count("history_calls_before_repeat", 200);
-        }
+        let history_seed = derive(ctx.master_seed ^ 0xb0b0, ctx.job);
+        history_calls(history_seed, HISTORY_CALLS);
+        res.count("history_calls_before_repeat", HISTORY_CALLS as u64);
 
         // --- repeat in the same process, opposite order
         for c in reference.calls.iter().rev() {
@@ -1486,6 +1493,8 @@ impl Engine for SchedEngine {
                 let mut doc = replay_doc(&pool, gen, &plan);
                 doc.put("pool", pool_to_json(&pool));
                 doc.put("mode", J::str("repeat"));
+                doc.put("history_seed", J::str(&format!("{:016x}", history_seed)));
+                doc.put("history_calls", J::u(HISTORY_CALLS as u64));
                 res.violations.push(Violation {
                     clause: "repeat_differs".into(),
                     key: format!("repeat_differs:{}:{:016x}", c.name(), ph),
@@ -1768,6 +1777,9 @@ impl Engine for SchedEngine {
                 }
             }
             "repeat" => {
+                if let Some(hs) = doc.get_str("history_seed").and_then(|h| u64::from_str_radix(h, 16).ok()) {
+                    history_calls(hs, doc.get_u64("history_calls").unwrap_or(0) as usize);
+                }
                 for c in reference.calls.iter().rev() {
                     let o = perform(&pool, *c);
                     if o != reference.outputs[reference.index(*c)] {
